@@ -5,6 +5,7 @@ import BorshModel.Io
 import BorshModel.Lemmas.Trace
 import BorshModel.Canon
 import BorshModel.Lemmas.ScriptWrite
+import BorshModel.Lemmas.AnyWriter
 namespace Borsh
 
 /-- the length-only writer: the running count plus the bytes of the chunks, with the
@@ -123,5 +124,53 @@ example :
        if cap ≥ 7 then r.1.1 == [2, 1, 1, 0, 0, 0, 120] && r.1.2 == cap - 7 && r.2.isOk
        else r.1.1 == [2, 1, 1, 0, 0, 0, 120].take cap && r.2.errIs eWriteZero)) = true := by
   decide +kernel
+
+/-! ### any writer at all -/
+
+/-- `borsh::to_writer` into an arbitrary writer that honours the `io::Write` contract -/
+def toWriterAny {ω : Type} (W : AnyWriter ω) (t : Ty) (v : Val) (w : ω) : ω × Out Unit :=
+  runTraceAny W (ser t v).chunks (ser t v).status w
+
+/-- **Writer independence, in general**: whatever the writer is — however it splits, buffers,
+retries or fails, as long as a successful `write_all` delivered its buffer and a failed one a
+prefix of it — what reaches the sink is always a prefix of the encoding, in order; and if
+serialization returns `Ok` the sink received exactly the encoding (which is what `to_vec` gives). -/
+theorem C12_any_writer {ω : Type} (W : AnyWriter ω) (t : Ty) (v : Val) (w : ω) :
+    (∃ k, k ≤ (ser t v).bytes.length ∧
+      W.delivered (toWriterAny W t v w).1 = W.delivered w ++ (ser t v).bytes.take k) ∧
+    ((toWriterAny W t v w).2 = .ok () →
+      W.delivered (toWriterAny W t v w).1 = W.delivered w ++ (ser t v).bytes ∧
+      toVec t v = .ok (ser t v).bytes) := by
+  obtain ⟨h1, h2⟩ := runTraceAny_spec W (ser t v).chunks (ser t v).status w
+  refine ⟨by simpa [toWriterAny, Tr.bytes] using h1, fun h => ?_⟩
+  obtain ⟨a, b⟩ := h2 h
+  exact ⟨by simpa [toWriterAny, Tr.bytes] using a, by simp [toVec, b]⟩
+
+/-- the growable vector as an instance: `to_writer(&mut Vec)` appends exactly the encoding -/
+def AnyWriter.vec : AnyWriter Bytes where
+  writeAll b w := (w ++ b, .ok ())
+  delivered w := w
+  ok_all := by intro b w w' h; cases h; rfl
+  fail_prefix := by intro b w w' r h hr; cases h; exact absurd rfl hr
+
+/-- a sink that accepts `room` more bytes and then reports `WriteZero` (`&mut [u8]`) as an instance -/
+def AnyWriter.fixed : AnyWriter (Bytes × Nat) where
+  writeAll := fun b st => fixedWriteAll b st
+  delivered st := st.1
+  ok_all := by
+    intro b w w' h
+    obtain ⟨written, room⟩ := w
+    simp only [fixedWriteAll, Prod.mk.injEq] at h
+    obtain ⟨h1, h2⟩ := h
+    split at h2
+    · rename_i hn
+      have : min b.length room = b.length := by simpa using hn
+      rw [← h1]; simp [this]
+    · cases h2
+  fail_prefix := by
+    intro b w w' r h _
+    obtain ⟨written, room⟩ := w
+    simp only [fixedWriteAll, Prod.mk.injEq] at h
+    exact ⟨min b.length room, Nat.min_le_left _ _, by rw [← h.1]⟩
 
 end Borsh
